@@ -241,9 +241,13 @@ impl Engine {
         let emu = match util::catch(|| {
             let mut ax = mach::build_ax(c, &images).map_err(|e| format!("machine construction failed: {}", e))?;
             mach::run_prelude(&mut ax, c, &images);
+            if ax.verif_finished() {
+                return Err(format!("the prelude {:?} ended the run (rip {:#x}, layout {}, code {})", c.pre, c.rip, c.layout, c.code));
+            }
             let before_meta = ax.verif_area_meta();
+            let executed_before = ax.verif_executed();
             let r = block_on(ax.step()).map_err(|e| e.to_string());
-            Ok::<_, String>((ax, before_meta, r))
+            Ok::<_, String>((ax, (before_meta, executed_before), r))
         }) {
             Ok(Ok((ax, meta, r))) => {
                 axm = Some((ax, meta));
@@ -289,7 +293,7 @@ impl Engine {
         let flag_mask = if valid { compared_flags(&ins, &pre) } else { 0 };
         let mut emu_regs = None;
         let mut emu_mem_changed: Option<u64> = None;
-        if let (Some((ax, meta_before)), Emu::Ok(_)) = (&axm, &emu) {
+        if let (Some((ax, (meta_before, executed_before))), Emu::Ok(_)) = (&axm, &emu) {
             let er = mach::ax_regs(ax);
             emu_regs = Some(er);
             if let Some(n) = &native {
@@ -357,8 +361,8 @@ impl Engine {
             if &ax.verif_area_meta() != meta_before {
                 mism.push((Comp::Extra("area-list-changed".into()), format!("areas {:x?} -> {:x?}", meta_before, ax.verif_area_meta())));
             }
-            if ax.verif_executed() != 1 {
-                mism.push((Comp::Extra("executed-count".into()), format!("executed count {} after one step", ax.verif_executed())));
+            if ax.verif_executed() != executed_before + 1 {
+                mism.push((Comp::Extra("executed-count".into()), format!("executed count {} -> {} over one step", executed_before, ax.verif_executed())));
             }
         }
         Diff { ins, valid, emu, emu_regs, native, skip_native, mism, flag_mask, written_gprs, accesses, emu_mem_changed }
